@@ -5,4 +5,6 @@ PathAttrs == {"from_point", "to_point", "theta0", "ice", "dz", "direct"}
 UPathAttrs == {"from_point", "to_point", "theta0", "ice"}
 ValsAll == {0, 1, 2, 10, 11, 12}
 LevelBound == TLCGet("level") <= 6
+LevelBoundG == TLCGet("level") <= 4
+ValsG == {0, 1, 10, 11}
 ====
